@@ -1,6 +1,7 @@
 import KM.Model.KeyStrength
 import KM.Model.GoTypes
 import KM.Gen.GoCertgen
+import KM.Gen.GoSshKey
 /-! # C10 — `ValidatePublicKeyStrength` (lib/certgen) as TRANSLATED from the current source (go2lean)
 
 The predicate every issuing path calls is translated from /repo's working tree on every run
@@ -60,3 +61,60 @@ example : (KM.Gen.GoCertgen.ValidatePublicKeyStrength (.rsa 2047 65537)).1 = fal
     (KM.Gen.GoCertgen.ValidatePublicKeyStrength .other).1 = false := by decide
 
 end KM.KeyStrength
+
+/-! ## `getValidSSHPublicKey`, the whole function (`KM/Gen/GoSshKey.lean`) -/
+namespace KM.SshKeyGo
+open KM.GoTypes KM.Go
+
+/-- **an SSH key line is accepted only if it is well-formed, parses, and is a strong key** (C10), on the translated
+source: the function returns neither a user error nor an internal error exactly when the regular expression matched the
+submitted line, `ssh.ParseAuthorizedKey` parsed that same line, the parsed key is a crypto key, and
+`ValidatePublicKeyStrength` (translated: `c10_go_is_spec`) said `true` without error; what it hands back is the parsed
+key — and `postAuthSSHCertHandler` signs only then (`c02_go_ssh_sign`). -/
+theorem c10_go_valid_ssh_key (ext : SshKeyExt) (line : List Char) (k : Option Nat) :
+    KM.Gen.GoSshKey.getValidSSHPublicKey ext line = (k, none, none) ↔
+      ext.lineMatches line = (true, none) ∧
+      (∃ a b c, ext.parse line = (k, a, b, c, none)) ∧
+      (∃ ck, ext.asCrypto k = (ck, true) ∧ ext.strong ck = (true, none)) := by
+  obtain ⟨lm, parse, asC, strong⟩ := ext
+  unfold KM.Gen.GoSshKey.getValidSSHPublicKey
+  dsimp only
+  rcases hl : lm line with ⟨v, _ | e⟩
+  · cases v
+    · simp
+    · simp only [Option.isSome_none, Bool.false_eq_true, if_false, Bool.not_true, true_and]
+      rcases hp : parse line with ⟨key, a, b, c, _ | e⟩
+      · simp only [Option.isSome_none, Bool.false_eq_true, if_false]
+        rcases hc : asC key with ⟨ck, ok⟩
+        cases ok
+        · simp only [Bool.not_false, if_true]
+          constructor
+          · intro h; cases h
+          · rintro ⟨⟨a', b', c', h1⟩, ck', h2, _⟩
+            cases h1; rw [hc] at h2; cases h2
+        · simp only [Bool.not_true, Bool.false_eq_true, if_false]
+          rcases hs : strong ck with ⟨sv, _ | e⟩
+          · cases sv
+            · simp only [Option.isSome_none, Bool.false_eq_true, if_false, Bool.not_false, if_true]
+              constructor
+              · intro h; cases h
+              · rintro ⟨⟨a', b', c', h1⟩, ck', h2, h3⟩
+                cases h1; rw [hc] at h2; cases h2; rw [hs] at h3; cases h3
+            · simp only [Option.isSome_none, Bool.false_eq_true, if_false, Bool.not_true]
+              constructor
+              · intro h; cases h
+                exact ⟨⟨a, b, c, rfl⟩, ck, hc, hs⟩
+              · rintro ⟨⟨a', b', c', h1⟩, _⟩
+                cases h1; rfl
+          · simp only [Option.isSome_some, if_true]
+            constructor
+            · intro h; cases h
+            · rintro ⟨⟨a', b', c', h1⟩, ck', h2, h3⟩
+              cases h1; rw [hc] at h2; cases h2; rw [hs] at h3; cases h3
+      · simp only [Option.isSome_some, if_true]
+        constructor
+        · intro h; cases h
+        · rintro ⟨⟨a', b', c', h1⟩, _⟩; cases h1
+  · simp
+
+end KM.SshKeyGo
